@@ -284,8 +284,14 @@ impl RecordDefinition<NativeDatumDetails> {
     /// This is used to determine the size of the byte buffer required to store any variant of this
     /// record definition.
     pub fn max_size(&self) -> usize {
-        self.datum_definitions()
-            .map(|d| d.details().offset() + d.details().size())
+        // Only the data which belong to a variant have an offset: a datum added and removed again
+        // before its variant was closed stays in the collection but was never placed.
+        self.variants()
+            .flat_map(|v| v.data())
+            .map(|d| {
+                let details = self[d].details();
+                details.offset() + details.size()
+            })
             .max()
             .unwrap_or(0)
     }
